@@ -30,3 +30,4 @@ fn c16_writev() {
         kani::cover!(WAITS > 0 && MOVED > 0, "C16.cover_would_block_after_progress");
     }
 }
+
